@@ -389,6 +389,27 @@ def run(ck: core.Check):
                             "hashseeds": hashseeds[:3], "salt": fc["salt"], "prelude": prelude})
         stats["refs"] += 1
     lap("fresh_processes")
+    # ---- oracle: inlined hand-built models with several dense AND sparse initializers (some dense ones also inputs
+    # with defaults), random-looking names, built in fresh interpreters under several hash seeds: bytes must coincide
+    from harness import lib_c12sparse as lsp
+    sp_specs = [lsp.gen_spec(rng) for _ in range(ck.pick(40, 200))]
+    sp_seeds = hashseeds[: ck.pick(6, 12)]
+    sp_res = lsp.run_family(ck, sp_specs, sp_seeds)
+    sp_stats = {"models": len(sp_specs), "hash_seeds": len(sp_seeds), "built": 0, "refused": 0,
+                "sparse_initializers": {}, "dense_initializers": {}, "default_valued_inputs": {}, "inlined_twice": 0}
+    for j, spec in enumerate(sp_specs):
+        per_seed = {hs: (res[j] if res is not None and j < len(res) else None) for hs, res in sp_res.items()}
+        ck.count(None, len(per_seed))
+        first = next((r for r in per_seed.values() if r is not None), None)
+        sp_stats["built" if first and "sha" in first else "refused"] += 1
+        for fld, val in (("sparse_initializers", len(spec["sparse"])), ("dense_initializers", len(spec["dense"])),
+                         ("default_valued_inputs", sum(1 for d in spec["dense"] if d["as_input"]))):
+            sp_stats[fld][str(val)] = sp_stats[fld].get(str(val), 0) + 1
+        sp_stats["inlined_twice"] += 1 if spec["twice"] else 0
+        for key, what in lsp.judge(spec, per_seed):
+            ck.failure(key, what, {"mode": "sparse", "spec": spec, "hashseeds": sp_seeds})
+    stats["sparse_initializer_models"] = sp_stats
+    lap("sparse_initializer_models")
     ck.cov.update({
         "phase_seconds": phases,
         "histories": len(inproc),
@@ -419,6 +440,13 @@ def replay(ck: core.Check, doc) -> bool:
     if mode == "renames":
         rc = case["rename_case"]
         bad = judge_rename(rc, run_rename_real(rc))
+        for key, what in bad:
+            print(f"{key}: {what}")
+        return bool(bad)
+    if mode == "sparse":
+        from harness import lib_c12sparse as lsp
+        res = lsp.run_family(ck, [case["spec"]], case.get("hashseeds", [0, 1, 2, 3, 4, 5]), tag="replay")
+        bad = lsp.judge(case["spec"], {hs: (r[0] if r else None) for hs, r in res.items()})
         for key, what in bad:
             print(f"{key}: {what}")
         return bool(bad)
